@@ -4,6 +4,10 @@
 // src/opcode/memory.rs composed through the real handle and stack code, and panic-freedom of all
 // of them (C01).
 use vstd::prelude::*;
+//@dropped stack.rs: `impl From<Stack> for Vec<RuntimeBoxedVal>` (a move of the field), derived Clone/Default/Eq/Debug of Stack and LocatedStackHandle, the #[cfg(test)] module
+//@dropped memory.rs DupN/SwapN: min_gas_cost, arg_count, as_text_code (format!), as_byte — not part of the stack semantics; all other opcodes of memory.rs
+//@dropped container.rs: Display for Located (hex::encode, write!), Errors<E> container; execution.rs: Display via thiserror
+//@dropped the real VM::stack_handle / current_thread_mut (VecDeque<VMThread>): used through the A-CALLEE contract of the abstract VM only
 
 verus! {
 // ---- element type ---------------------------------------------------------------------------------
@@ -19,22 +23,6 @@ impl Clone for RuntimeBoxedVal {
 #[verifier::external_body]
 pub struct KnownWord { _opaque: u8 }
 
-// A-STD: `<[T]>::swap` exchanges two in-bounds positions and touches nothing else (panics out of bounds)
-pub assume_specification<T> [<[T]>::swap] (s: &mut [T], a: usize, b: usize)
-    requires a < old(s)@.len(), b < old(s)@.len(),
-    ensures final(s)@ == old(s)@.update(a as int, old(s)@[b as int]).update(b as int, old(s)@[a as int]);
-
-// ---- the EVM's stack, written from the EVM definition ----------------------------------------------
-/// the EVM stack limit
-pub open spec fn EVM_STACK_LIMIT() -> nat { 1024 }
-/// the k-th item from the top, 1-based as in the EVM's DUPk / SWAPk
-pub open spec fn item<T>(s: Seq<T>, k: int) -> T { s[s.len() - k] }
-/// DUPn: push a copy of the n-th item
-pub open spec fn evm_dup<T>(s: Seq<T>, n: int) -> Seq<T> { s.push(item(s, n)) }
-/// SWAPn: exchange the 1st and the (n+1)-th item, nothing else moves
-pub open spec fn evm_swap<T>(s: Seq<T>, n: int) -> Seq<T> {
-    Seq::new(s.len(), |i: int| if i == s.len() - 1 { item(s, n + 1) } else if i == s.len() - 1 - n { item(s, 1) } else { s[i] })
-}
 } // verus!
 
 pub mod container {
@@ -55,203 +43,149 @@ use container::Locatable;
 use execution::{Error, Result};
 
 verus! {
-//@extract file=src/constant.rs path="const MAXIMUM_STACK_DEPTH" kind=type
-//@end
+//@include stack/stack_items.rs
 
-//@extract file=src/vm/state/stack.rs path="struct Stack" kind=type
+// ---- abstract VM: only what DUPn / SWAPn touch ------------------------------------------------------
+/// A-CALLEE (type stand-in for `VM`): the current thread (if any) with its instruction pointer and
+/// stack, and the code length.  Everything else of the real VM is out of sight of DUPn/SWAPn.
+pub struct VM {
+    pub cur: Option<CurrentThread>,
+    pub code_len: u32,
+}
+pub struct CurrentThread { pub ip: u32, pub stack: Stack }
+impl VM {
+    pub open spec fn has_thread(&self) -> bool { self.cur is Some }
+    pub open spec fn ip(&self) -> u32 { self.cur->Some_0.ip }
+    pub open spec fn stack(&self) -> Seq<RuntimeBoxedVal> { self.cur->Some_0.stack@ }
+    /// everything but the current thread's stack
+    pub open spec fn same_but_stack(&self, o: &VM) -> bool {
+        self.has_thread() == o.has_thread() && self.code_len == o.code_len && (self.has_thread() ==> self.ip() == o.ip())
+    }
+    // A-CALLEE: VM::stack_handle (src/vm/mod.rs) = `current_thread_mut().map(|t| t.state_mut().stack_mut()
+    // .new_located(ip))`: a handle on the current thread's stack carrying the current thread's instruction
+    // pointer, Err(NoSuchThread) when the queue is empty; nothing else changes.  `wf`: every Stack in a
+    // VMState was made by Stack::new and changed only through the methods above, which keep wf
+    // (C07.stack.*.wf); the field is private.
+    #[verifier::external_body]
+    pub fn stack_handle(&mut self) -> (r: Result<LocatedStackHandle<'_>>)
+        ensures
+            old(self).has_thread() ==> r is Ok,
+            r is Ok ==> old(self).has_thread() && r->Ok_0.ip() == old(self).ip() && r->Ok_0.cur() == old(self).stack() && r->Ok_0.wf()
+                && final(self).same_but_stack(old(self)) && final(self).stack() == r->Ok_0.fin(),
+            r is Err ==> *final(self) == *old(self) && r->Err_0.payload is NoSuchThread,
+    { unimplemented!() }
+}
+//@extract file=src/opcode/mod.rs path="type ExecuteResult" kind=type
 //@end
-
-impl Stack {
-    /// the model: bottom of the stack first, top of the stack last
-    pub closed spec fn view(&self) -> Seq<RuntimeBoxedVal> { self.data@ }
-    /// representation invariant: never deeper than the EVM allows
-    pub open spec fn wf(&self) -> bool { self@.len() <= EVM_STACK_LIMIT() }
+/// A-CALLEE (trait stand-in): `Opcode` reduced to the one method under contract
+pub trait Opcode {
+    fn execute(&self, vm: &mut VM) -> ExecuteResult;
 }
 
-//@extract file=src/vm/state/stack.rs path="type StackResult" kind=type
-//@end
-
-//@extract file=src/vm/state/stack.rs path="impl Stack" kind=header
-//@end
-
-//@extract file=src/vm/state/stack.rs path="impl Stack|fn new"
-//@ret r
-//@spec
-        ensures
-            r@ == Seq::<RuntimeBoxedVal>::empty(),      //@ob C07.stack.new.empty
-            r.wf(),                                      //@ob C07.stack.new.wf
-//@end
-
-//@extract file=src/vm/state/stack.rs path="impl Stack|fn push"
-//@ret r
-//@spec
-        requires old(self).wf(),
-        ensures
-            old(self)@.len() < EVM_STACK_LIMIT() ==> r is Ok && final(self)@ == old(self)@.push(data),                                     //@ob C07.stack.push.ok_pushes
-            old(self)@.len() >= EVM_STACK_LIMIT() ==> r is Err && r->Err_0 is StackDepthExceeded,                                          //@ob C07.stack.push.limit_is_error
-            r is Err ==> final(self)@ == old(self)@,                                                                                         //@ob C07.stack.push.error_unchanged
-            final(self).wf(),                                                                                                                //@ob C07.stack.push.wf
-//@end
-
-//@extract file=src/vm/state/stack.rs path="impl Stack|fn pop"
-//@ret r
-//@spec
-        ensures
-            old(self)@.len() > 0 ==> r == Ok::<RuntimeBoxedVal, Error>(old(self)@.last()) && final(self)@ == old(self)@.drop_last(),      //@ob C07.stack.pop.ok_pops_top
-            old(self)@.len() == 0 ==> r is Err && r->Err_0 is NoSuchStackFrame,                                                             //@ob C07.stack.pop.empty_is_error
-            r is Err ==> final(self)@ == old(self)@,                                                                                         //@ob C07.stack.pop.error_unchanged
-//@end
-
-//@extract file=src/vm/state/stack.rs path="impl Stack|fn read"
-//@ret r
-//@spec
-        ensures
-            (depth as int) < self@.len() ==> r is Ok && *r->Ok_0 == item(self@, depth as int + 1),        //@ob C07.stack.read.ok_reads_frame
-            (depth as int) >= self@.len() ==> r is Err && r->Err_0 is NoSuchStackFrame,                   //@ob C07.stack.read.missing_is_error
-//@end
-
-//@extract file=src/vm/state/stack.rs path="impl Stack|fn duplicate"
-//@ret r
-//@spec
-        requires old(self).wf(),
-        ensures
-            (frame as int) < old(self)@.len() < EVM_STACK_LIMIT() ==> r is Ok && final(self)@ == evm_dup(old(self)@, frame as int + 1),   //@ob C07.stack.duplicate.ok_copies_frame
-            (frame as int) >= old(self)@.len() ==> r is Err && r->Err_0 is NoSuchStackFrame,                                                //@ob C07.stack.duplicate.missing_is_error
-            (frame as int) < old(self)@.len() && old(self)@.len() >= EVM_STACK_LIMIT() ==> r is Err && r->Err_0 is StackDepthExceeded,      //@ob C07.stack.duplicate.limit_is_error
-            r is Err ==> final(self)@ == old(self)@,                                                                                         //@ob C07.stack.duplicate.error_unchanged
-            final(self).wf(),                                                                                                                //@ob C07.stack.duplicate.wf
-//@end
-
-//@extract file=src/vm/state/stack.rs path="impl Stack|fn swap"
-//@ret r
-//@spec
-        ensures
-            (frame as int) < old(self)@.len() ==> r is Ok && final(self)@ =~= evm_swap(old(self)@, frame as int),      //@ob C07.stack.swap.ok_exchanges
-            r is Ok ==> final(self)@.len() == old(self)@.len() && forall|i: int| 0 <= i < old(self)@.len() && i != old(self)@.len() - 1 && i != old(self)@.len() - 1 - frame ==> final(self)@[i] == old(self)@[i],      //@ob C07.stack.swap.everything_else_unchanged
-            (frame as int) >= old(self)@.len() ==> r is Err && r->Err_0 is NoSuchStackFrame,                           //@ob C07.stack.swap.missing_is_error
-            r is Err ==> final(self)@ == old(self)@,                                                                    //@ob C07.stack.swap.error_unchanged
-//@end
-
-//@extract file=src/vm/state/stack.rs path="impl Stack|fn depth"
-//@ret r
-//@spec
-        ensures r == self@.len(),      //@ob C07.stack.depth.is_len
-//@end
-
-//@extract file=src/vm/state/stack.rs path="impl Stack|fn is_empty"
-//@ret r
-//@spec
-        ensures r == (self@.len() == 0),      //@ob C07.stack.is_empty.iff_no_items
-//@end
-
-//@extract file=src/vm/state/stack.rs path="impl Stack|fn check_frame_at"
-//@ret r
-//@spec
-        ensures
-            r is Ok == ((depth as int) < self@.len()),      //@ob C07.stack.check_frame_at.ok_iff_exists
-            r is Err ==> r->Err_0 is NoSuchStackFrame,      //@ob C07.stack.check_frame_at.error_kind
-//@end
-
-//@extract file=src/vm/state/stack.rs path="impl Stack|fn top_frame_index"
-//@ret r
-//@spec
-        ensures
-            self@.len() > 0 ==> r is Ok && r->Ok_0 == self@.len() - 1,      //@ob C07.stack.top_frame_index.is_last
-            self@.len() == 0 ==> r is Err && r->Err_0 is NoSuchStackFrame,                 //@ob C07.stack.top_frame_index.empty_is_error
-//@end
-
-//@extract file=src/vm/state/stack.rs path="impl Stack|fn new_located"
-//@ret r
-//@spec
-        ensures
-            r.ip() == instruction_pointer,      //@ob C17.stack.new_located.ip
-            r.cur() == old(self)@,              //@ob C07.stack.new_located.same_stack
-            r.fin() == final(self)@,            //@ob C07.stack.new_located.writes_through
-//@end
-
-//@extract file=src/vm/state/stack.rs path="impl Stack|fn all_values"
-//@ret r
-//@spec
-        ensures r@ == self@,      //@ob C07.stack.all_values.is_model
-//@end
-}
-
-//@extract file=src/vm/state/stack.rs path="struct LocatedStackHandle" kind=type
-//@end
-
-impl<'a> LocatedStackHandle<'a> {
-    /// the location every error of this handle carries
-    pub closed spec fn ip(&self) -> u32 { self.instruction_pointer }
-    /// the stack behind the handle, now
-    pub closed spec fn cur(&self) -> Seq<RuntimeBoxedVal> { self.stack@ }
-    /// the stack behind the handle when the borrow ends
-    #[verifier::prophetic]
-    pub closed spec fn fin(&self) -> Seq<RuntimeBoxedVal> { final(self.stack)@ }
-    pub open spec fn wf(&self) -> bool { self.cur().len() <= EVM_STACK_LIMIT() }
-    /// frame of every handle operation: same location, same borrowed stack
-    #[verifier::prophetic]
-    pub open spec fn same_handle(&self, o: &Self) -> bool { self.ip() == o.ip() && self.fin() == o.fin() }
-}
-
-//@extract file=src/vm/state/stack.rs path="impl<'a> LocatedStackHandle<'a>" kind=header
-//@end
-
-//@extract file=src/vm/state/stack.rs path="impl<'a> LocatedStackHandle<'a>|fn push" id=stack::LocatedStackHandle::push
-//@ret r
-//@spec
-        requires old(self).wf(),
-        ensures
-            final(self).same_handle(old(self)), final(self).wf(),
-            old(self).cur().len() < EVM_STACK_LIMIT() ==> r is Ok && final(self).cur() == old(self).cur().push(data),                      //@ob C07.stack.handle_push.ok_pushes
-            old(self).cur().len() >= EVM_STACK_LIMIT() ==> r is Err && r->Err_0.payload is StackDepthExceeded,                             //@ob C07.stack.handle_push.limit_is_error
-            r is Err ==> final(self).cur() == old(self).cur(),                                                                               //@ob C07.stack.handle_push.error_unchanged
-            r is Err ==> r->Err_0.location == old(self).ip(),                                                                                //@ob C17.stack.handle_push.error_located
-//@end
-
-//@extract file=src/vm/state/stack.rs path="impl<'a> LocatedStackHandle<'a>|fn pop" id=stack::LocatedStackHandle::pop
-//@ret r
-//@spec
-        ensures
-            final(self).same_handle(old(self)),
-            old(self).cur().len() > 0 ==> r is Ok && r->Ok_0 == old(self).cur().last() && final(self).cur() == old(self).cur().drop_last(),      //@ob C07.stack.handle_pop.ok_pops_top
-            old(self).cur().len() == 0 ==> r is Err && r->Err_0.payload is NoSuchStackFrame,                                                       //@ob C07.stack.handle_pop.empty_is_error
-            r is Err ==> final(self).cur() == old(self).cur(),                                                                                      //@ob C07.stack.handle_pop.error_unchanged
-            r is Err ==> r->Err_0.location == old(self).ip(),                                                                                       //@ob C17.stack.handle_pop.error_located
-//@end
-
-//@extract file=src/vm/state/stack.rs path="impl<'a> LocatedStackHandle<'a>|fn read" id=stack::LocatedStackHandle::read
-//@ret r
-//@spec
-        ensures
-            (depth as int) < self.cur().len() ==> r is Ok && *r->Ok_0 == item(self.cur(), depth as int + 1),      //@ob C07.stack.handle_read.ok_reads_frame
-            (depth as int) >= self.cur().len() ==> r is Err && r->Err_0.payload is NoSuchStackFrame,               //@ob C07.stack.handle_read.missing_is_error
-            r is Err ==> r->Err_0.location == self.ip(),                                                            //@ob C17.stack.handle_read.error_located
-//@end
-
-//@extract file=src/vm/state/stack.rs path="impl<'a> LocatedStackHandle<'a>|fn dup" id=stack::LocatedStackHandle::dup
-//@ret r
-//@spec
-        requires old(self).wf(),
-        ensures
-            final(self).same_handle(old(self)), final(self).wf(),
-            (frame as int) < old(self).cur().len() < EVM_STACK_LIMIT() ==> r is Ok && final(self).cur() == evm_dup(old(self).cur(), frame as int + 1),      //@ob C07.stack.handle_dup.ok_copies_frame
-            (frame as int) >= old(self).cur().len() ==> r is Err && r->Err_0.payload is NoSuchStackFrame,                                                     //@ob C07.stack.handle_dup.missing_is_error
-            (frame as int) < old(self).cur().len() && old(self).cur().len() >= EVM_STACK_LIMIT() ==> r is Err && r->Err_0.payload is StackDepthExceeded,     //@ob C07.stack.handle_dup.limit_is_error
-            r is Err ==> final(self).cur() == old(self).cur(),                                                                                                 //@ob C07.stack.handle_dup.error_unchanged
-            r is Err ==> r->Err_0.location == old(self).ip(),                                                                                                  //@ob C17.stack.handle_dup.error_located
-//@end
-
-//@extract file=src/vm/state/stack.rs path="impl<'a> LocatedStackHandle<'a>|fn swap" id=stack::LocatedStackHandle::swap
-//@ret r
-//@spec
-        ensures
-            final(self).same_handle(old(self)),
-            (frame as int) < old(self).cur().len() ==> r is Ok && final(self).cur() == evm_swap(old(self).cur(), frame as int),      //@ob C07.stack.handle_swap.ok_exchanges
-            (frame as int) >= old(self).cur().len() ==> r is Err && r->Err_0.payload is NoSuchStackFrame,                             //@ob C07.stack.handle_swap.missing_is_error
-            r is Err ==> final(self).cur() == old(self).cur(),                                                                         //@ob C07.stack.handle_swap.error_unchanged
-            r is Err ==> r->Err_0.location == old(self).ip(),                                                                          //@ob C17.stack.handle_swap.error_located
-//@end
+/// sanity of the EVM-side definitions for every n the EVM has
+pub proof fn lemma_evm_dup_swap_shape<T>(s: Seq<T>, n: int)
+    requires 1 <= n <= 16,
+    ensures
+        n <= s.len() ==> evm_dup(s, n).len() == s.len() + 1 && evm_dup(s, n).last() == s[s.len() - n] && evm_dup(s, n).drop_last() =~= s,
+        n + 1 <= s.len() ==> evm_swap(s, n).len() == s.len() && evm_swap(s, n)[s.len() - 1] == s[s.len() - 1 - n] && evm_swap(s, n)[s.len() - 1 - n] == s[s.len() - 1]
+            && forall|i: int| 0 <= i < s.len() - 1 - n || s.len() - 1 - n < i < s.len() - 1 ==> evm_swap(s, n)[i] == s[i],
+{
 }
 
 } // verus!
+
+pub mod disassembly {
+use vstd::prelude::*;
+verus! {
+//@extract file=src/error/disassembly.rs path="enum Error" kind=type id=disassembly::Error
+//@end
+} // verus!
+}
+
+pub mod memory {
+use vstd::prelude::*;
+use super::{disassembly, evm_dup, evm_swap, execution::Error, ExecuteResult, Opcode, EVM_STACK_LIMIT, VM};
+verus! {
+//@extract file=src/opcode/memory.rs path="struct DupN" kind=type
+//@end
+impl DupN {
+    /// DUPn exists for 1 <= n <= 16 only (checked where it is built: `new`)
+    #[verifier::type_invariant]
+    pub closed spec fn inv(self) -> bool { 0 < self.item <= 16 }
+    pub closed spec fn nv(&self) -> int { self.item as int }
+}
+//@extract file=src/opcode/memory.rs path="impl DupN" kind=header
+//@end
+//@extract file=src/opcode/memory.rs path="impl DupN|fn new"
+//@ret r
+//@spec
+        ensures
+            r is Ok == (1 <= n <= 16),                  //@ob C07.stack.dupn_new.range
+            r is Ok ==> r->Ok_0.nv() == n,              //@ob C07.stack.dupn_new.keeps_n
+//@end
+//@extract file=src/opcode/memory.rs path="impl DupN|fn n"
+//@ret r
+//@spec
+        ensures r == self.nv(), 1 <= r <= 16,           //@ob C07.stack.dupn_n.in_range
+//@proof entry
+        proof { use_type_invariant(self); }
+//@end
+}
+//@extract file=src/opcode/memory.rs path="impl Opcode for DupN" kind=header
+//@end
+//@extract file=src/opcode/memory.rs path="impl Opcode for DupN|fn execute"
+//@ret r
+//@spec
+        ensures
+            final(vm).same_but_stack(old(vm)),
+            // DUPn copies the n-th item from the top (1-based), for every n in 1..=16 and every depth
+            old(vm).has_thread() && self.nv() <= old(vm).stack().len() < EVM_STACK_LIMIT() ==> r is Ok && final(vm).stack() == evm_dup(old(vm).stack(), self.nv()),      //@ob C07.stack.dupn.copies_nth_item
+            old(vm).has_thread() && old(vm).stack().len() < self.nv() ==> r is Err && r->Err_0.payload is NoSuchStackFrame,                                                  //@ob C07.stack.dupn.underflow_is_error
+            old(vm).has_thread() && self.nv() <= old(vm).stack().len() && old(vm).stack().len() >= EVM_STACK_LIMIT() ==> r is Err && r->Err_0.payload is StackDepthExceeded, //@ob C07.stack.dupn.overflow_is_error
+            r is Err && old(vm).has_thread() ==> final(vm).stack() == old(vm).stack() && r->Err_0.location == old(vm).ip(),                                                  //@ob C07.stack.dupn.error_unchanged C17.stack.dupn.error_located
+            !old(vm).has_thread() ==> r is Err && *final(vm) == *old(vm),
+//@end
+}
+
+//@extract file=src/opcode/memory.rs path="struct SwapN" kind=type
+//@end
+impl SwapN {
+    /// SWAPn exists for 1 <= n <= 16 only (checked where it is built: `new`)
+    #[verifier::type_invariant]
+    pub closed spec fn inv(self) -> bool { 0 < self.item <= 16 }
+    pub closed spec fn nv(&self) -> int { self.item as int }
+}
+//@extract file=src/opcode/memory.rs path="impl SwapN" kind=header
+//@end
+//@extract file=src/opcode/memory.rs path="impl SwapN|fn new"
+//@ret r
+//@spec
+        ensures
+            r is Ok == (1 <= n <= 16),                  //@ob C07.stack.swapn_new.range
+            r is Ok ==> r->Ok_0.nv() == n,              //@ob C07.stack.swapn_new.keeps_n
+//@end
+//@extract file=src/opcode/memory.rs path="impl SwapN|fn n"
+//@ret r
+//@spec
+        ensures r == self.nv(), 1 <= r <= 16,           //@ob C07.stack.swapn_n.in_range
+//@proof entry
+        proof { use_type_invariant(self); }
+//@end
+}
+//@extract file=src/opcode/memory.rs path="impl Opcode for SwapN" kind=header
+//@end
+//@extract file=src/opcode/memory.rs path="impl Opcode for SwapN|fn execute"
+//@ret r
+//@spec
+        ensures
+            final(vm).same_but_stack(old(vm)),
+            // SWAPn exchanges the top with the (n+1)-th item, everything else stays, for every n in 1..=16
+            old(vm).has_thread() && self.nv() + 1 <= old(vm).stack().len() ==> r is Ok && final(vm).stack() == evm_swap(old(vm).stack(), self.nv()),      //@ob C07.stack.swapn.exchanges_top_with_n_plus_1
+            old(vm).has_thread() && old(vm).stack().len() < self.nv() + 1 ==> r is Err && r->Err_0.payload is NoSuchStackFrame,                              //@ob C07.stack.swapn.underflow_is_error
+            r is Err && old(vm).has_thread() ==> final(vm).stack() == old(vm).stack() && r->Err_0.location == old(vm).ip(),                                  //@ob C07.stack.swapn.error_unchanged C17.stack.swapn.error_located
+            !old(vm).has_thread() ==> r is Err && *final(vm) == *old(vm),
+//@end
+}
+} // verus!
+}
 fn main() {}
